@@ -346,3 +346,39 @@ pub fn dagify(r: &mut Rng, h: &mut RHG) -> &'static str {
     h.t = RICF::from_segs(&ts, nn);
     knob
 }
+
+/// a hypergraph with real dependency structure: 4..=(size+6) nodes ranked by a random permutation,
+/// 3..=(size+4) hyperedges each with 1-2 sources and 1-3 targets, every target ranked above every
+/// source (so it is acyclic, with joins of arms of unequal length, shared successors listed between
+/// other successors, nodes reached twice in one step); sometimes one backward target closes a cycle.
+pub fn dag_hg(r: &mut Rng, size: usize, p: &HgParams) -> (RHG, &'static str) {
+    let nn = r.range(4, size + 6);
+    let ne = r.range(3, size + 4);
+    let mut rank: Vec<usize> = (0..nn).collect();
+    r.shuffle(&mut rank);
+    // by_rank[k] = the node of rank k
+    let mut by_rank = vec![0usize; nn];
+    for (v, k) in rank.iter().enumerate() {
+        by_rank[*k] = v;
+    }
+    let mut ss: Vec<Vec<usize>> = vec![];
+    let mut ts: Vec<Vec<usize>> = vec![];
+    for _ in 0..ne {
+        let cut = r.range(1, nn - 1); // sources among ranks < cut, targets among ranks >= cut
+        let ns = r.range(1, 2);
+        let nt = r.range(1, 3);
+        // sources close to the cut or far below it; targets close to the cut or far above it
+        ss.push((0..ns).map(|_| by_rank[if r.chance(1, 2) { cut - 1 } else { r.below(cut) }]).collect());
+        ts.push((0..nt).map(|_| by_rank[if r.chance(1, 2) { cut } else { r.range(cut, nn - 1) }]).collect());
+    }
+    let mut knob = "dag:ranked-hyperedges";
+    if r.chance(1, 5) {
+        let e = r.below(ne);
+        let lo = ss[e].iter().map(|v| rank[*v]).min().unwrap();
+        ts[e].push(by_rank[r.below(lo + 1)]);
+        knob = "dag:ranked-hyperedges+one-back-edge";
+    }
+    let w = r.vec_below(nn, p.node_labels);
+    let x = r.vec_below(ne, p.edge_labels);
+    (RHG { s: RICF::from_segs(&ss, nn), t: RICF::from_segs(&ts, nn), w, x }, knob)
+}
